@@ -38,6 +38,7 @@ import (
 	governance "github.com/oasisprotocol/oasis-core/go/governance/api"
 	scheduler "github.com/oasisprotocol/oasis-core/go/scheduler/api"
 	staking "github.com/oasisprotocol/oasis-core/go/staking/api"
+	vault "github.com/oasisprotocol/oasis-core/go/vault/api"
 
 	"github.com/oasisprotocol/oasis-core/go/common/cbor"
 	"github.com/oasisprotocol/oasis-core/go/common/logging"
@@ -101,6 +102,8 @@ type history struct {
 	extra    []staking.Address // fresh and reserved destinations
 	proposal uint64            // number of proposals submitted so far
 	// the harness's own bookkeeping of WHO must be slashed / rewarded (not read from events)
+	vaults    bool          // vault history: one vault, deposits, withdraw policies, vault-executed messages
+	vlt       *vaultInfo
 	campaigns bool          // governance campaigns: staking ChangeParameters proposals pushed through by all validators
 	camp      *campaign
 	lastWeights string
@@ -301,6 +304,8 @@ func newHistory(seed uint64, run int, sum *coqout.Summary, w *coqout.Writer) (*h
 	sum.Count("genesis_min_transact_balance", fmt.Sprint(minTransact))
 	sum.Count("genesis_common_pool", poolVariant)
 	sum.Count("genesis_epochs", map[bool]string{true: "mock (set-epoch transactions, jumps)", false: "insecure beacon (every 4 blocks)"}[h.mock])
+	h.vaults = gr.Chance(50)
+	sum.Count("genesis_vault_history", fmt.Sprint(h.vaults))
 	h.campaigns = !h.mock && gr.Chance(85)
 	h.campNext = 1
 	sum.Count("genesis_governance_campaigns", fmt.Sprint(h.campaigns))
@@ -615,6 +620,9 @@ type genTx struct {
 	body    func(x *index, ok bool) string // Coq body term given the tx result
 	addrs   []staking.Address
 	after   func(ok bool) // harness bookkeeping once the result is known
+	// bodyRes, when set, replaces body: it sees the whole result (events) and may override the
+	// expected result class ("" keeps the transaction's own class)
+	bodyRes func(x *index, tr *muxdrv.TxResult) (string, string)
 	nomodel bool   // fails before authentication (bad signature): no model operation
 	flavor  string // what is (in)valid about it
 }
@@ -678,6 +686,11 @@ func (h *history) anyAddr(r *prng.R, self staking.Address) (staking.Address, str
 		return self, "self"
 	case 1:
 		return h.extra[r.Intn(len(h.extra))], "reserved"
+	case 2:
+		if h.vlt != nil && h.vlt.created {
+			return h.vlt.addr, "vault"
+		}
+		fallthrough
 	default:
 		s := h.senders[r.Intn(len(h.senders))]
 		return s.addr, "other"
@@ -825,6 +838,19 @@ func (h *history) genTx(r *prng.R, v *blockView, nonces map[staking.Address]uint
 			return staking.NewWithdrawTx(n, f, &staking.Withdraw{From: from, Amount: qty(amt)})
 		}
 		t.body = func(x *index, _ bool) string { return fmt.Sprintf("(BWithdraw %s %s)", x.of(from), amt) }
+		if h.vlt != nil && h.vlt.created && from == h.vlt.addr {
+			hook := h.vlt.hookOK(s.addr, amt)
+			t.flavor += ",from-vault"
+			t.body = func(x *index, _ bool) string {
+				return fmt.Sprintf("(BWithdrawHooked %s %s %s)", x.of(from), amt, coqout.Bool(hook))
+			}
+			to := s.addr
+			t.after = func(ok bool) {
+				if ok {
+					h.vlt.spent(to, amt)
+				}
+			}
+		}
 	case m < 92:
 		// amend commission schedule: ledger-neutral, validity decided by the schedule rules
 		ep := v.dump.Epoch
@@ -1041,6 +1067,261 @@ func hugeGenesis(doc *genesis.Document, variant string) {
 	total.Add(total, st.LastBlockFees.ToBigInt())
 	total.Add(total, st.GovernanceDeposits.ToBigInt())
 	st.TotalSupply = qty(total)
+}
+
+// vaultInfo is the harness's bookkeeping of the one vault of a vault history.
+type vaultInfo struct {
+	creator sender
+	addr    staking.Address
+	created bool
+	pending bool   // create transaction in flight
+	nonce   uint64 // next action nonce (vault.Nonce)
+	policy  map[staking.Address]*vaultPolicy
+}
+
+type vaultPolicy struct {
+	limit *big.Int
+	cur   *big.Int
+}
+
+// hookOK predicts the vault's withdraw hook (vault/api/policy.go AuthorizeWithdrawal with a
+// single never-ending bucket): the address needs a state entry; a zero amount passes; otherwise
+// the policy must be enabled and the running total must stay within the limit.
+func (v *vaultInfo) hookOK(to staking.Address, amt *big.Int) bool {
+	pl, ok := v.policy[to]
+	if !ok {
+		return false
+	}
+	if amt.Sign() == 0 {
+		return true
+	}
+	if pl.limit.Sign() == 0 {
+		return false
+	}
+	return new(big.Int).Add(pl.cur, amt).Cmp(pl.limit) <= 0
+}
+
+func (v *vaultInfo) spent(to staking.Address, amt *big.Int) {
+	if pl, ok := v.policy[to]; ok && amt.Sign() > 0 {
+		pl.cur = new(big.Int).Add(pl.cur, amt)
+	}
+}
+
+const vaultGas = 4 * muxdrv.DefaultGas
+const vaultInterval = 1_000_000_000 // one bucket for the whole history
+
+// actionResult finds the vault's ActionExecutedEvent in a transaction result.
+func actionResult(tr *muxdrv.TxResult) (bool, string, uint32) {
+	for _, e := range flatten(tr.Events) {
+		if e.kind == "action_executed" {
+			var ae vault.ActionExecutedEvent
+			if err := events.DecodeValue(e.val, &ae); err != nil {
+				panic(err)
+			}
+			return true, ae.Result.Module, ae.Result.Code
+		}
+	}
+	return false, "", 0
+}
+
+// vaultTxs adds at most one vault-related transaction to the block.
+func (h *history) vaultTxs(r *prng.R, pre *blockView, nonces map[staking.Address]uint64, blockNo int, gts *[]*genTx, cand *[][]byte) {
+	vp := h.g.Doc.Vault.Parameters
+	nonceOf := func(a staking.Address) uint64 {
+		if n, ok := nonces[a]; ok {
+			return n
+		}
+		return pre.nonce(a)
+	}
+	add := func(t *genTx, mk func(n uint64, f *transaction.Fee) *transaction.Transaction) {
+		t.nonce = nonceOf(t.snd.addr)
+		t.fee = big.NewInt(int64(r.Intn(30)))
+		if t.gas == 0 {
+			t.gas = vaultGas
+		}
+		t.raw = muxdrv.Sign(t.snd.key, mk(t.nonce, &transaction.Fee{Amount: qty(t.fee), Gas: transaction.Gas(t.gas)}))
+		nonces[t.snd.addr] = t.nonce + 1
+		*gts = append(*gts, t)
+		*cand = append(*cand, t.raw)
+	}
+	other := func(_ *index, ok bool) string { return fmt.Sprintf("(BOther %s)", coqout.Bool(ok)) }
+	if h.vlt == nil {
+		h.vlt = &vaultInfo{creator: h.senders[6+r.Intn(3)], policy: map[staking.Address]*vaultPolicy{}}
+	}
+	v := h.vlt
+	if !v.created {
+		if v.pending {
+			return
+		}
+		n := nonceOf(v.creator.addr)
+		addr := vault.NewVaultAddress(v.creator.addr, n+1)
+		au := vault.Authority{Addresses: []staking.Address{v.creator.addr}, Threshold: 1}
+		v.pending = true
+		add(&genTx{snd: v.creator, method: "vault_create", opCost: uint64(vp.GasCosts[vault.GasOpCreate]), flavor: "vault", body: other,
+			addrs: []staking.Address{addr},
+			after: func(ok bool) {
+				v.pending = false
+				if ok {
+					v.created, v.addr = true, addr
+				}
+			}}, func(n uint64, f *transaction.Fee) *transaction.Transaction {
+			return vault.NewCreateTx(n, f, &vault.Create{AdminAuthority: au, SuspendAuthority: au})
+		})
+		return
+	}
+	if !r.Chance(75) {
+		return
+	}
+	vbal := pre.balance(v.addr)
+	third := h.senders[9+r.Intn(3)]
+	authCost := uint64(vp.GasCosts[vault.GasOpAuthorizeAction])
+	action := func(kind string, act vault.Action, onExec func(x *index, module string, code uint32) (string, string)) {
+		nn := v.nonce
+		t := &genTx{snd: v.creator, method: "vault_" + kind, opCost: authCost, flavor: "vault", addrs: []staking.Address{v.addr}}
+		t.bodyRes = func(x *index, tr *muxdrv.TxResult) (string, string) {
+			executed, module, code := actionResult(tr)
+			if executed {
+				v.nonce = nn + 1
+			}
+			if tr.Code != 0 || !executed {
+				return fmt.Sprintf("(BOther %s)", coqout.Bool(tr.Code == 0)), ""
+			}
+			return onExec(x, module, code)
+		}
+		add(t, func(n uint64, f *transaction.Fee) *transaction.Transaction {
+			return vault.NewAuthorizeActionTx(n, f, &vault.AuthorizeAction{Vault: v.addr, Nonce: nn, Action: act})
+		})
+	}
+	k := r.Intn(10)
+	if vbal.Sign() == 0 && r.Chance(70) {
+		k = 0 // an empty vault is funded first
+	}
+	switch {
+	case k < 2:
+		// deposit into the vault
+		sd := h.senders[5+r.Intn(5)]
+		amt := big.NewInt(int64(1000 + r.Intn(200000)))
+		to := v.addr
+		add(&genTx{snd: sd, gas: muxdrv.DefaultGas, method: "transfer", opCost: uint64(pre.params.GasCosts[staking.GasOpTransfer]), flavor: "vault-deposit",
+			addrs: []staking.Address{to},
+			body:  func(x *index, _ bool) string { return fmt.Sprintf("(BTransfer %s %s)", x.of(to), amt) }},
+			func(n uint64, f *transaction.Fee) *transaction.Transaction {
+				return staking.NewTransferTx(n, f, &staking.Transfer{To: to, Amount: qty(amt)})
+			})
+	case k < 4:
+		// withdraw policy for a third party, the creator or the vault itself
+		who := []staking.Address{third.addr, v.addr, v.creator.addr, v.addr}[r.Intn(4)]
+		limit := []*big.Int{big.NewInt(500), big.NewInt(1_000_000_000_000), big.NewInt(0), new(big.Int).Set(two128)}[r.Intn(4)]
+		h.sum.Count("vault", "policy for "+map[bool]string{true: "the vault itself", false: "another address"}[who == v.addr])
+		action("policy", vault.Action{UpdateWithdrawPolicy: &vault.ActionUpdateWithdrawPolicy{Address: who,
+			Policy: vault.WithdrawPolicy{LimitAmount: qty(limit), LimitInterval: vaultInterval}}},
+			func(_ *index, module string, code uint32) (string, string) {
+				if module == "" && code == 0 {
+					if pl, ok := v.policy[who]; ok {
+						pl.limit = limit // same interval: the running total is kept
+					} else {
+						v.policy[who] = &vaultPolicy{limit: limit, cur: new(big.Int)}
+					}
+				}
+				return "(BOther true)", ""
+			})
+	case k < 5:
+		// a third party (or anyone) withdraws from the vault through the hook
+		sd := []sender{third, v.creator, h.senders[4+r.Intn(8)]}[r.Intn(3)]
+		amt, ak := h.amount(r, vbal, qu(&pre.params.MinTransferAmount))
+		if r.Chance(60) {
+			amt, ak = big.NewInt(int64(10+r.Intn(400))), "small"
+		}
+		hook := v.hookOK(sd.addr, amt)
+		from := v.addr
+		h.sum.Count("vault", "third-party withdraw, hook "+map[bool]string{true: "allows", false: "refuses"}[hook])
+		add(&genTx{snd: sd, gas: muxdrv.DefaultGas, method: "withdraw", opCost: uint64(pre.params.GasCosts[staking.GasOpWithdraw]), flavor: "from-vault,amt=" + ak,
+			addrs: []staking.Address{from},
+			body: func(x *index, _ bool) string {
+				return fmt.Sprintf("(BWithdrawHooked %s %s %s)", x.of(from), amt, coqout.Bool(hook))
+			},
+			after: func(ok bool) {
+				if ok {
+					v.spent(sd.addr, amt)
+				}
+			}},
+			func(n uint64, f *transaction.Fee) *transaction.Transaction {
+				return staking.NewWithdrawTx(n, f, &staking.Withdraw{From: from, Amount: qty(amt)})
+			})
+	default:
+		// the vault executes a staking message as a subcall with itself as caller
+		var method transaction.MethodName
+		var body any
+		var inner func(x *index) string
+		var target staking.Address
+		var onOK func()
+		amt, _ := h.amount(r, vbal, qu(&pre.params.MinTransferAmount))
+		if r.Chance(65) {
+			amt = big.NewInt(int64(10 + r.Intn(900)))
+		}
+		kind := ""
+		switch r.Intn(6) {
+		case 0, 1:
+			// Withdraw with the vault as caller; from == to when the source is the vault itself
+			from := v.addr
+			if r.Chance(30) {
+				from = third.addr
+			}
+			target, kind = from, "withdraw from "+map[bool]string{true: "ITSELF", false: "another account"}[from == v.addr]
+			method, body = staking.MethodWithdraw, &staking.Withdraw{From: from, Amount: qty(amt)}
+			if from == v.addr {
+				hook := v.hookOK(v.addr, amt)
+				inner = func(x *index) string {
+					return fmt.Sprintf("(BWithdrawHooked %s %s %s)", x.of(from), amt, coqout.Bool(hook))
+				}
+				onOK = func() { v.spent(v.addr, amt) }
+			} else {
+				inner = func(x *index) string { return fmt.Sprintf("(BWithdraw %s %s)", x.of(from), amt) }
+			}
+		case 2, 3:
+			to, _ := h.anyAddr(r, v.addr)
+			target, kind = to, "transfer"+map[bool]string{true: " to ITSELF", false: ""}[to == v.addr]
+			method, body = staking.MethodTransfer, &staking.Transfer{To: to, Amount: qty(amt)}
+			inner = func(x *index) string { return fmt.Sprintf("(BTransfer %s %s)", x.of(to), amt) }
+		case 4:
+			to := h.g.Validators[r.Intn(4)].Entity.Address()
+			if r.Chance(30) {
+				to = v.addr
+			}
+			target, kind = to, "add_escrow"+map[bool]string{true: " to ITSELF", false: ""}[to == v.addr]
+			method, body = staking.MethodAddEscrow, &staking.Escrow{Account: to, Amount: qty(amt)}
+			inner = func(x *index) string { return fmt.Sprintf("(BAddEscrow %s %s)", x.of(to), amt) }
+		default:
+			target, kind = v.addr, "burn"
+			method, body = staking.MethodBurn, &staking.Burn{Amount: qty(amt)}
+			inner = func(x *index) string { return fmt.Sprintf("(BBurn %s)", amt) }
+		}
+		h.sum.Count("vault", "executes "+kind)
+		tgt := target
+		action("exec", vault.Action{ExecuteMessage: &vault.ActionExecuteMessage{Method: method, Body: cbor.Marshal(body)}},
+			func(x *index, module string, code uint32) (string, string) {
+				cls := "ROk"
+				switch {
+				case module == "" && code == 0:
+					if onOK != nil {
+						onOK()
+					}
+				case module == "staking":
+					cls = fmt.Sprintf("(RFail %d)", code)
+				default:
+					// uncoded error of the handler: a rejected reserved address, else a quantity underflow
+					cls = "(RFail 20)"
+					for _, ra := range h.extra {
+						if ra == tgt {
+							cls = "(RFail 30)"
+						}
+					}
+				}
+				h.sum.Count("vault_exec_result", kind+": "+cls)
+				return fmt.Sprintf("(BVaultExec %s %s)", x.of(v.addr), inner(x)), cls
+			})
+		(*gts)[len(*gts)-1].addrs = append((*gts)[len(*gts)-1].addrs, target)
+	}
 }
 
 // campaign is one staking ChangeParameters proposal and the votes that make it pass.
@@ -1488,6 +1769,9 @@ func (h *history) block(blockNo int, total int) (*blockOut, error) {
 	if h.campaigns {
 		h.campaignTxs(r, pre, nonces, blockNo, &gts, &cand)
 	}
+	if h.vaults {
+		h.vaultTxs(r, pre, nonces, blockNo, &gts, &cand)
+	}
 	if h.mock && r.Chance(35) {
 		// advance the epoch by 1..4 (takes effect in the next block)
 		sd := h.senders[4+r.Intn(9)]
@@ -1718,7 +2002,17 @@ func (h *history) block(blockNo int, total int) (*blockOut, error) {
 		if t.after != nil {
 			t.after(tr.Code == 0)
 		}
-		body := strings.ReplaceAll(t.body(x, tr.Code == 0), "EPOCH", fmt.Sprint(epoch))
+		var body string
+		if t.bodyRes != nil {
+			var c2 string
+			body, c2 = t.bodyRes(x, tr)
+			if c2 != "" {
+				cls = c2
+			}
+		} else {
+			body = t.body(x, tr.Code == 0)
+		}
+		body = strings.ReplaceAll(body, "EPOCH", fmt.Sprint(epoch))
 		if strings.HasPrefix(body, "(BOther") && cls != "ROk" && cls != "(RFail 10)" && cls != "(RFail 21)" && cls != "(RFail 22)" {
 			cls = "(RFail 30)" // decided outside the ledger
 		}
